@@ -15,17 +15,18 @@ def judge (j : Json) : R Verdict := do
   let i ← nat (← field j "i")
   let gen ← str (← field j "gen")
   let decl ← field j "declared"
-  let dParams ← strs (← field decl "params")
   let dParties ← strs (← field decl "parties")
   let dEnv ← strs (← field decl "env")
-  let used ← strs (← field decl "used")
+  let dTxs ← (← arr (← field decl "txs")).mapM fun t => do
+    pure ((← str (← field t "name")), (← strs (← field t "params")), (← strs (← field t "used")))
   let obs ← field j "obs"
   let key := fnv (fieldD j "src").compress
   let mut corr : List String := []
   let mut spec : List String := []
   let mut tags : List String := [gen]
-  let model := Tii.interfaceOf dParams dParties dEnv
-  let dups := Tii.dupNames [] dParams ++ Tii.dupNames [] dParties ++ Tii.dupNames [] dEnv
+  let model := Tii.interfaceOf [] dParties dEnv
+  let dups := (dTxs.map fun (_, ps, _) => Tii.dupNames [] ps).flatten ++ Tii.dupNames [] dParties ++ Tii.dupNames [] dEnv
+  tags := tags ++ ["txs:" ++ toString dTxs.length]
   let err := fieldD obs "error"
   if !(isNull err) then
     -- the compiler refused the program: the model's duplicate check must have fired
@@ -41,9 +42,16 @@ def judge (j : Json) : R Verdict := do
   let oEnv ← strs (← field tii "environment")
   if !(sameSet oParties model.parties) then corr := corr ++ ["parties-keys"]
   if !(sameSet oEnv model.environment) then corr := corr ++ ["environment-keys"]
-  for t in ← arr (← field obs "txs") do
+  let oTxs ← arr (← field obs "txs")
+  if oTxs.length != dTxs.length then spec := spec ++ ["transactions-listed"]
+  for t in oTxs do
     let oParams ← strs (← field t "params")
-    if !(sameSet oParams model.params) then corr := corr ++ ["params-keys"]
+    let tname ← str (← field t "name")
+    let some (_, dParams, used) := dTxs.find? (fun d => d.1 == tname)
+      | spec := spec ++ ["transaction-not-declared:" ++ tname]
+    let envUsed := used.filter (dEnv.contains ·)
+    tags := tags ++ [if dEnv.isEmpty then "no-env" else if envUsed.isEmpty then "env-unread" else "env-read"]
+    if !(sameSet oParams (Tii.interfaceOf dParams dParties dEnv).params) then corr := corr ++ ["params-keys"]
     let irp := fieldD t "ir_params"
     if isNull irp then spec := spec ++ ["embedded-ir-does-not-decode"]
     else
